@@ -392,8 +392,9 @@ fn edit(rng: &mut Rng, m: &MMappings, cfg: &EditCfg, tag: &str) -> MMappings {
 			}
 		}
 		if rng.below(100) < cfg.add {
-			let name = cps_str(&format!("f_{}{}", key_tag(), rng.below(3)));
-			let desc = cps_str(*rng.pick(&["I", "J", "La;"][..]));
+			let kt = key_tag();
+			let name = cps_str(&format!("f_{kt}{}", if kt == "s" { 0 } else { rng.below(3) }));
+			let desc = cps_str(if kt == "s" { "I" } else { *rng.pick(&["I", "J", "La;"][..]) });
 			if !c.fields.iter().any(|f| f.names[0].as_ref() == Some(&name) && f.desc == desc) {
 				let mut f = MField { desc, names: vec![Some(name), Some(sfx(rng, "addedField"))], doc: None };
 				edit_doc(rng, &mut f.doc, cfg);
@@ -401,8 +402,9 @@ fn edit(rng: &mut Rng, m: &MMappings, cfg: &EditCfg, tag: &str) -> MMappings {
 			}
 		}
 		if rng.below(100) < cfg.add {
-			let name = cps_str(&format!("m_{}{}", key_tag(), rng.below(3)));
-			let desc = cps_str(*rng.pick(&["()V", "(I)V", "(La;I)La;"][..]));
+			let kt = key_tag();
+			let name = cps_str(&format!("m_{kt}{}", if kt == "s" { 0 } else { rng.below(3) }));
+			let desc = cps_str(if kt == "s" { "(I)V" } else { *rng.pick(&["()V", "(I)V", "(La;I)La;"][..]) });
 			if !c.methods.iter().any(|f| f.names[0].as_ref() == Some(&name) && f.desc == desc) {
 				let mut me = MMeth { desc, names: vec![Some(name), Some(sfx(rng, "addedMethod"))], doc: None, params: vec![] };
 				edit_doc(rng, &mut me.doc, cfg);
@@ -907,6 +909,20 @@ pub fn run(ctx: &Ctx) -> anyhow::Result<Report> {
 		run.r.count_n("class_only_a", ka.difference(&kb).count() as u64);
 		run.r.count_n("class_only_b", kb.difference(&ka).count() as u64);
 		run.r.count_n("class_both", ka.intersection(&kb).count() as u64);
+		// entries that A and B added independently under the same key (absent in the ancestor), by level
+		let kanc: BTreeSet<_> = anc.classes.iter().map(|c| c.names[0].clone()).collect();
+		run.r.count_n("class_added_on_both_sides", ka.intersection(&kb).filter(|k| !kanc.contains(*k)).count() as u64);
+		for ca in &a.classes {
+			let (Some(cb), canc) = (b.classes.iter().find(|c| c.names[0] == ca.names[0]), anc.classes.iter().find(|c| c.names[0] == ca.names[0])) else { continue };
+			for fa in &ca.fields {
+				let key = |f: &&MField| f.names[0] == fa.names[0] && f.desc == fa.desc;
+				if let Some(fb) = cb.fields.iter().find(key) { if !canc.is_some_and(|c| c.fields.iter().any(|f| key(&f))) { run.r.count(if fb == fa { "field_added_on_both_sides_equal" } else { "field_added_on_both_sides_different" }); } }
+			}
+			for ma in &ca.methods {
+				let key = |f: &&MMeth| f.names[0] == ma.names[0] && f.desc == ma.desc;
+				if let Some(mb) = cb.methods.iter().find(key) { if !canc.is_some_and(|c| c.methods.iter().any(|f| key(&f))) { run.r.count(if mb == ma { "method_added_on_both_sides_equal" } else { "method_added_on_both_sides_different" }); } }
+			}
+		}
 		run.pair_case(stream, &a, &b, true);
 	}
 
